@@ -119,7 +119,26 @@ func streamPodTemplate(r *rand.Rand, i int, tier string) *Case {
 	if err := cl.Get(context.TODO(), key, before); err == nil {
 		in["cur"] = cPodTpl(before)
 	}
-	rec, _ := podtplctl.NewReconciler(podtplctl.ReconcilerOptions{}, cl, theScheme, logr.Discard(), record.NewFakeRecorder(1000))
+	sw := &switchClient{Client: cl}
+	rec, _ := podtplctl.NewReconciler(podtplctl.ReconcilerOptions{}, sw, theScheme, logr.Discard(), record.NewFakeRecorder(1000))
+	if r.Intn(3) == 0 {
+		// the same reconciler instance has already reconciled this ExtendedDaemonSet in another world:
+		// one in which the PodTemplate was consistent, and (sometimes) its write failed
+		cat = append(cat, "warm-reconciler")
+		var wobjs []client.Object
+		for _, o := range objs {
+			if _, isTpl := o.(*corev1.PodTemplate); !isTpl {
+				wobjs = append(wobjs, o.DeepCopyObject().(client.Object))
+			}
+		}
+		var wfail map[int]string
+		if r.Intn(2) == 0 {
+			wfail = map[int]string{0: "reject"}
+		}
+		sw.use(loggingClient(wobjs, &writeLog{}, wfail))
+		Recovered(func() { _, _ = rec.Reconcile(context.TODO(), reconcile.Request{NamespacedName: key}) })
+		sw.use(cl)
+	}
 	var err error
 	p, _ := Recovered(func() { _, err = rec.Reconcile(context.TODO(), reconcile.Request{NamespacedName: key}) })
 	out := map[string]interface{}{"kind": "ok", "write": "none", "foreign": []string{}, "order": wl.Order}
